@@ -48,7 +48,7 @@ SPEC = {
     "rule": "sequence = reset + one random cluster description (3-10 stores: state, heartbeat age around the "
             "disconnect/down thresholds, busy, paused, add/remove limit, snapshot and pending-peer counts around their "
             "limits, capacity/free space around the low-space ratio, region count around 30, zone/rack/host labels, "
-            "engine/specialUse/exclusive labels; options: max-replicas 1-5, 0-3 location labels, isolation level, "
+            "engine/specialUse/exclusive labels, label KEYS sometimes capitalised or upper-case (Zone / ZONE); options: max-replicas 1-5, 0-3 location labels, isolation level, "
             "low-space ratio, limits, reject-leader property (0-3 entries, also several on one key), feature switches, joint consensus on/off; one region "
             "of 1-6 peers with learners, leader, down and pending lists; 0-4 placement rules) + `filters` (every "
             "filter's verdict on every store) + `check replica` + `check ctl` (CheckerController.CheckRegion) + `check rule` "
@@ -77,13 +77,13 @@ SPEC = {
                   "clusters (statistical beyond them); FitRegion (C12) and the operator builder's step planning (C08) "
                   "are inputs/abstracted (builder acceptance of non-add requests is nondeterministic in the model; "
                   "the step order of replacements is modelled and compared); float scores are an arbitrary choice; label "
-                  "strings are case-normalised; the rule checker's offline-leader recorder is always fresh.",
+                  "keys are looked up case-insensitively on ASCII (Unicode folding is not modelled); the rule checker's offline-leader recorder is always fresh.",
     "technique": "Lean 4 theorems over all outcomes of a nondeterministic functional model + extracted tables + "
                  "differential correspondence + verified monitor",
     "assumptions": [
         "store ids in the cluster view are distinct and a region has at most one peer per store (theorem hypotheses WF)",
         "the region fit given to the rule checker only mentions peers of the region (FitWF; FitRegion is property C12)",
-        "label keys and values are lower-case ASCII (strings.EqualFold = equality)",
+        "label keys and values are ASCII: strings.EqualFold is modelled as ASCII case folding (store label keys are generated in mixed case)",
         "DownTime() = whole seconds since the last heartbeat plus a fraction below one second",
         "region and leader scores (floats) only order candidates: any survivor may be picked",
         "the low-space comparison is exact for the generated capacities (powers of two) and ratios (k/8)",
